@@ -12,8 +12,11 @@ const MAX_DATA_SIZE_BYTES: usize = 119;
 
 #[cfg(any(feature = "std", feature = "alloc"))]
 pub type CorrectionData = lib::std::vec::Vec<u8>;
+// One byte more than the data may hold: the data is everything that follows the header, and
+// the payload is padded to whole bytes. The header does not end on a byte boundary of the 6-bit
+// payload characters, so 119 bytes of data are followed by a byte that holds nothing but padding.
 #[cfg(all(not(feature = "std"), not(feature = "alloc")))]
-pub type CorrectionData = lib::std::vec::Vec<u8, MAX_DATA_SIZE_BYTES>;
+pub type CorrectionData = lib::std::vec::Vec<u8, { MAX_DATA_SIZE_BYTES + 1 }>;
 
 #[derive(Debug, PartialEq)]
 pub struct DgnssBroadcastBinaryMessage {
